@@ -42,61 +42,54 @@ func (i *index) Clear() {
 
 func (i *index) putData(key string, item map[string]*types.Item) error {
 	indexKey, err := i.keySchema.GetKey(i.Table.AttributesDef, item)
-	if err != nil || indexKey == "" {
+	if err != nil {
 		return err
 	}
 
-	_, exists := i.refs[key]
+	old, exists := i.refs[key]
+	if exists {
+		if old == indexKey {
+			return nil
+		}
+
+		i.removeSortedKey(old)
+		delete(i.refs, key)
+	}
+
+	if indexKey == "" {
+		return nil
+	}
 
 	i.refs[key] = indexKey
-
-	if !exists {
-		i.sortedKeys = append(i.sortedKeys, indexKey)
-		sort.Strings(i.sortedKeys)
-	}
+	i.sortedKeys = append(i.sortedKeys, indexKey)
+	sort.Strings(i.sortedKeys)
 
 	return nil
 }
 
 func (i *index) updateData(key string, item, oldItem map[string]*types.Item) error {
-	indexKey, err := i.keySchema.GetKey(i.Table.AttributesDef, item)
-	if err != nil || indexKey == "" {
-		return err
-	}
-
-	old := i.refs[key]
-	i.refs[key] = indexKey
-
-	if old != indexKey {
-		pos := sort.SearchStrings(i.sortedKeys, old)
-		if pos >= len(i.sortedKeys) {
-			i.sortedKeys = append(i.sortedKeys, indexKey)
-		} else {
-			i.sortedKeys[pos] = indexKey
-		}
-
-		sort.Strings(i.sortedKeys)
-	}
-
-	return nil
+	return i.putData(key, item)
 }
 
-func (i *index) delete(key string, item map[string]*types.Item) error {
-	delete(i.refs, key)
-
-	indexKey, err := i.keySchema.GetKey(i.Table.AttributesDef, item)
-	if err != nil || indexKey == "" {
-		return err
-	}
-
+func (i *index) removeSortedKey(indexKey string) {
 	pos := sort.SearchStrings(i.sortedKeys, indexKey)
-	if pos == len(i.sortedKeys) {
-		return err
+	if pos == len(i.sortedKeys) || i.sortedKeys[pos] != indexKey {
+		return
 	}
 
 	copy(i.sortedKeys[pos:], i.sortedKeys[pos+1:])
 	i.sortedKeys[len(i.sortedKeys)-1] = ""
 	i.sortedKeys = i.sortedKeys[:len(i.sortedKeys)-1]
+}
+
+func (i *index) delete(key string, item map[string]*types.Item) error {
+	old, exists := i.refs[key]
+	if !exists {
+		return nil
+	}
+
+	delete(i.refs, key)
+	i.removeSortedKey(old)
 
 	return nil
 }
